@@ -144,7 +144,7 @@ func concatT(parts []string) string {
 func (ex *Exec) newError(p *Path, msg string, kind string) Value {
 	errT := types.Universe.Lookup("error").Type()
 	r := ex.c.Fresh("err", "Iface")
-	p.Assume("(not (= (ityp " + r + ") 0))")
+	p.Assume("(= (ityp " + r + ") " + fmt.Sprint(ex.c.TIDName("<"+kind+" error>")) + ")")
 	p.Assume("(= " + ex.errMsg(Value{r, errT}) + " " + msg + ")")
 	ex.c.Trust(kind + ": returns a non-nil error whose Error() is the formatted text")
 	return Value{r, errT}
